@@ -351,6 +351,8 @@ impl<M: Manager, W: From<Object<M>>> Pool<M, W> {
                     TryAcquireError::Closed => PoolError::Closed,
                     TryAcquireError::NoPermits => PoolError::Timeout(TimeoutType::Wait),
                 })?;
+                #[cfg(deadpool_verif)]
+                crate::verif::point("get:acquired", Arc::as_ptr(&self.inner) as usize);
                 if self.inner.pay_debt() {
                     permit.forget();
                 } else {
@@ -370,6 +372,8 @@ impl<M: Manager, W: From<Object<M>>> Pool<M, W> {
                             .acquire()
                             .await
                             .map_err(|_| PoolError::Closed)?;
+                        #[cfg(deadpool_verif)]
+                        crate::verif::point("get:acquired", Arc::as_ptr(&self.inner) as usize);
                         if self.inner.pay_debt() {
                             permit.forget();
                         } else {
@@ -779,6 +783,8 @@ impl<M: Manager> PoolInner<M> {
             }
             slots.size -= 1;
             drop(slots);
+            #[cfg(deadpool_verif)]
+            crate::verif::point("return:surplus_unlocked", self as *const Self as usize);
             if !owed {
                 self.semaphore.add_permits(1);
             }
